@@ -788,13 +788,27 @@ func run(c *vf.Ctx) {
 	c.Set("rule", "(a) purity bundle on every transition of a union-alphabet DFS and on invalid variants of every accepted block (duplicated last transaction, wrong payout): input digests (state, block, every proof, supplement) identical before/after ValidateBlock, ApplyBlock, RevertBlock and per-transaction MidState validation; repeated calls and a decode(encode()) copy give the same verdict / state bytes / update digest; per-transaction verdict == block verdict; returned updates and Copy()/DeepCopy() results share no memory with the inputs; (b) all interleavings of 2-3 callers on shared inputs at sync.Pool Get/Put scheduling points (before and after each) up to a preemption bound, with adversarial choice of the pooled object; (c) free-running -race pass")
 	keys := chain.NewKeys(c.Seed)
 	// (a)
+	type nv struct {
+		net  string
+		D, K int
+	}
+	var nvs []nv
 	for _, n := range []string{"mixed", "v1-eras", "v2-only"} {
+		if c.Quick() {
+			nvs = append(nvs, nv{n, 2, 1})
+		} else {
+			// thorough: all ordered pairs per block with two non-empty blocks, and three non-empty single-action blocks
+			nvs = append(nvs, nv{n, 2, 2}, nv{n, 3, 1})
+		}
+	}
+	for _, v := range nvs {
+		n := v.net
 		if c.Expired() {
 			break
 		}
 		sp := chain.Spec(n)
 		m := &chain.Model{Name: "union", Spec: sp, Menu: menu, Opt: chain.Options{CheckLedger: true},
-			H: vf.Pick[uint64](c, 7, 9), D: vf.Pick(c, 2, 3), K: vf.Pick(c, 1, 2), R: 0}
+			H: vf.Pick[uint64](c, 7, 9), D: v.D, K: v.K, R: 0}
 		if sp.Name == "mixed" {
 			m.SkipStart = 3
 			m.H += 3
@@ -855,7 +869,7 @@ func run(c *vf.Ctx) {
 				}
 			}
 		}
-		{
+		if v.D == 2 {
 			// transaction combinatorics (first: small): every ordered pair of actions merged into ONE transaction, each
 			// block with the same purity bundle
 			mm := *m
@@ -866,8 +880,8 @@ func run(c *vf.Ctx) {
 		}
 		x := chain.NewExplorer(c, m, "C09")
 		x.Run()
-		x.Report(n + "/")
-		if !c.Expired() {
+		x.Report(fmt.Sprintf("%s/D%dK%d/", n, v.D, v.K))
+		if !c.Expired() && v.D == 2 {
 			// block combinatorics: one setup block, then every ordered tuple of <= 2 (thorough 3) actions in one block, each with the
 			// same purity bundle
 			mc := *m
